@@ -9,6 +9,8 @@
 // <pt> is one integer for abs1/table6 and two for l1/linf.  All metrics are integer valued, so the
 // doubles the code computes are exact and are printed as integers.
 //
+// One result vector is reused across all nearestK/nearestR calls (pre-filled with the previous answer, or
+// with two sentinel elements 987654321,987654321 when that is empty); likewise for list().
 // Every output line is  `<result> | sz=<size()> ls=<list() in the order returned>`  and, for the GNAT
 // kinds,  ` | <tree dump>`:  the protected tree is walked in preorder after every operation
 // (`private`/`protected` are opened for this translation unit only; no hook in /repo):
@@ -198,9 +200,19 @@ int main()
         i += dim;
         return true;
     };
+    // ONE result vector is reused for all nearestK / nearestR calls of a script, as planners do: each call
+    // receives whatever the previous call left in it; when that is empty it is pre-filled with sentinel
+    // elements (never stored, printed with distance 2000000000).  A query that does not clear / overwrite its
+    // output parameter therefore shows stale entries.  list() gets the same treatment.
+    const P SENT{987654321L, 987654321L};
+    std::vector<P> shared, shlist;
+    auto prefill = [&](std::vector<P> &v) {
+        if (v.empty()) { v.push_back(SENT); v.push_back(SENT); }
+    };
+    auto sdist = [&](const P &q, const P &x) -> double { return x == SENT ? 2000000000.0 : df(q, x); };
     auto answer = [&](const P &q, const std::vector<P> &nbh) {
         std::string s = "k=" + std::to_string(nbh.size()) + " d=";
-        for (size_t i = 0; i < nbh.size(); ++i) s += (i ? "," : "") + numStr(df(q, nbh[i]));
+        for (size_t i = 0; i < nbh.size(); ++i) s += (i ? "," : "") + numStr(sdist(q, nbh[i]));
         s += " e=";
         for (size_t i = 0; i < nbh.size(); ++i) s += (i ? " " : "") + ptStr(nbh[i]);
         return s;
@@ -211,7 +223,8 @@ int main()
         if (gnatn) before = gnatn->pivotSelector_.rng_.generator_;
     };
     auto fin = [&](const std::string &res) {
-        std::vector<P> lst;
+        std::vector<P> &lst = shlist;
+        lst.push_back(SENT);
         nn->list(lst);
         std::string s = res + " | sz=" + std::to_string(nn->size()) + " ls=" + std::to_string(lst.size());
         for (const P &p : lst) s += " " + ptStr(p);
@@ -263,7 +276,7 @@ int main()
             fin(std::to_string(nn->size()));
         else if (op == "list" && t.size() == 1)
         {
-            std::vector<P> lst;
+            std::vector<P> lst{SENT};
             nn->list(lst);
             std::sort(lst.begin(), lst.end(), [](const P &a, const P &b) { return a.x != b.x ? a.x < b.x : a.y < b.y; });
             std::string s = "n=" + std::to_string(lst.size());
@@ -284,13 +297,15 @@ int main()
         }
         else if (op == "nk" && pt(t, i, p) && i + 1 == t.size() && vp::parseNat(t[i]))
         {
-            std::vector<P> nbh;
+            std::vector<P> &nbh = shared;
+            prefill(nbh);
             nn->nearestK(p, (std::size_t)*vp::parseNat(t[i]), nbh);
             fin(answer(p, nbh));
         }
         else if (op == "nr" && pt(t, i, p) && i + 1 == t.size() && vp::parseInt(t[i]))
         {
-            std::vector<P> nbh;
+            std::vector<P> &nbh = shared;
+            prefill(nbh);
             nn->nearestR(p, (double)*vp::parseInt(t[i]), nbh);
             fin(answer(p, nbh));
         }
